@@ -234,8 +234,53 @@ def probe_inherited_event_names():
     return fails
 
 
+def probe_equal_machines(seed, cases=40):
+    """Two live machines that compare (and hash) equal — they track records with the same key — are still two machines:
+    whichever way an event is sent to one of them (`send`, the event method, an item of `events` / `allowed_events`, a
+    trigger bound onto another object), it is that machine that takes it and the other one does not move."""
+    import random
+    import warnings
+    from props.c17 import _keyed_machine
+    fails = []
+    K = _keyed_machine()
+    for k in range(cases):
+        rng = random.Random(f"{seed}:c13-equal-machines:{k}")
+        style = rng.choice(["send", "method", "events", "allowed", "bound"])
+        warm = rng.random() < 0.7          # the first machine's triggers were used before the second one exists
+        with warnings.catch_warnings():
+            warnings.simplefilter("ignore")
+            try:
+                a = K(key=1)
+                if warm:
+                    a.pay(); a.undo()
+                    [e for e in a.allowed_events]
+                    a.events
+                b = K(key=1)
+                assert a == b and a is not b
+                tgt = type("Obj", (), {})()
+                if style == "bound":
+                    b.bind_events_to(tgt)
+                ev = {"send": lambda: b.send("pay"), "method": lambda: b.pay(),
+                      "events": lambda: next(x for x in b.events if x == "pay")(),
+                      "allowed": lambda: next(x for x in b.allowed_events if x == "pay")(),
+                      "bound": lambda: tgt.pay()}[style]
+                ev()
+                got = (a.current_state.id, b.current_state.id)
+            except Exception as e:  # noqa: BLE001
+                fails.append(f"case {k} (style {style}, first machine used before: {warm}): {type(e).__name__}: {e}")
+                continue
+        if got != ("draft", "paid"):
+            fails.append(f"case {k}: `pay` sent to the second of two equal machines through {style} "
+                         f"(first machine used before: {warm}): states (first, second) = {got}, expected ('draft', 'paid')")
+    return fails
+
+
 def run(ctx):
     lean_obligations(ctx)
+    pe = safe_probe(probe_equal_machines, ctx.seed)
+    ctx.coverage["equal_machines_cases"] = 40
+    if pe:
+        ctx.violation(ctx.write_replay("equal_machines.txt", "\n".join(pe[:10]) + "\n"), pe[0][:200])
     pf2 = safe_probe(probe_inherited_event_names)
     if pf2:
         ctx.violation(ctx.write_replay("inherited_event_names.txt", "\n".join(pf2) + "\n"), pf2[0])
